@@ -79,6 +79,11 @@ def inputs(nmax, seed, thorough):
         Cv[..., 0] = rng.standard_normal((n, n))
         Cv[..., 1 + (n % 3)] = rng.standard_normal((n, n))
         out.append(("complex-embedded", Cv, None))
+        if n >= 2:
+            # large magnitudes: the deflation tests are relative to the local diagonal scale above 1
+            out.append(("generic-scaled-up", rng.standard_normal((n, n, 4)) * 2.0 ** 20, None))
+            out.append(("hermitian-scaled-up", E.herm_from_spectrum(ul[-1][1], lam) * 2.0 ** 30, [x * 2.0 ** 30 for x in lam]))
+            out.append(("integer-large", rng.integers(-3000, 3001, (n, n, 4)).astype(float), None))
         if thorough:
             out.append(("generic-scaled", rng.standard_normal((n, n, 4)) * 1e-6, None))
             out.append(("zero", np.zeros((n, n, 4)), None))
